@@ -10,8 +10,9 @@ VARIABLES kind, w, h, px, first, entries, failure, transparent
 vars == <<kind, w, h, px, first, entries, failure, transparent>>
 
 Colours == {<<255, 0, 0, 255>>, <<0, 255, 0, 128>>, <<1, 2, 3, 0>>}
-\* colours related by channel permutations and by equal channel sums, so that a key that mixes channels collides
-RGB == {<<10, 5, 20>>, <<20, 5, 10>>, <<5, 10, 20>>}
+\* colours related by channel permutations, equal channel sums and carries between channels (255 next to 1 in the
+\* neighbouring channel), so that a key that mixes channels collides
+RGB == {<<10, 5, 20>>, <<20, 5, 10>>, <<255, 0, 0>>, <<0, 1, 0>>}
 Dims == ((1..MaxDim) \X (1..MaxDim)) \cup {<<1, n>> : n \in 1..MaxStrip} \cup {<<n, 1>> : n \in 1..MaxStrip}
 
 Init == kind = "start" /\ w = 0 /\ h = 0 /\ px = <<>> /\ first = 0 /\ entries = <<>> /\ failure = 0 /\ transparent = <<>>
